@@ -22,6 +22,40 @@ def pick(rng, xs):
     return xs[rng.randrange(len(xs))]
 
 
+def recase(rng, label):
+    """the same label in another case: comparison of prerelease identifiers is case-sensitive
+    (ASCII order, upper case first) for every system but NuGet, which ignores case and prints
+    lower case"""
+    r = rng.random()
+    if r < 0.4:
+        return label.upper()
+    if r < 0.7:
+        return label.title()
+    return bytes(ch ^ 0x20 if (65 <= ch <= 90 or 97 <= ch <= 122) and rng.random() < 0.5 else ch for ch in label)
+
+
+def pre_label(rng):
+    """a prerelease tag; 30% of the alphabetic ones in upper or mixed case (all systems)"""
+    label = pick(rng, PRE)
+    if rng.random() < 0.3 and any(97 <= ch <= 122 for ch in label):
+        label = recase(rng, label)
+    return label
+
+
+def case_variants(pre):
+    """probe labels around a tag with letters: its lower-, upper- and title-case forms, and a
+    label that sorts strictly between the upper-case and the lower-case form (Beta < C < beta)"""
+    if pre is None or not any(65 <= ch <= 90 or 97 <= ch <= 122 for ch in pre):
+        return []
+    out = [pre.lower(), pre.upper(), pre.title(), pre.swapcase()]
+    first = pre[:1].upper()
+    if b"A" <= first < b"Z":
+        out.append(bytes([first[0] + 1]) + pre[1:].lower())      # between the two case forms
+    elif first == b"Z":
+        out.append(b"Zz" + pre[1:].lower())
+    return [x for i, x in enumerate(out) if x != pre and x not in out[:i]]
+
+
 def num(rng):
     if rng.random() < 0.04:
         return pick(rng, BIGN)
@@ -48,9 +82,9 @@ def semver_bound(rng, sysi, partial=True):
     s = core(rng, None if partial else 3, wild=0.18 if partial else 0.0,
              wildchars=(b"*",) if sysi in (5, 6) else (b"x", b"X", b"*"))
     if rng.random() < 0.2 and s.count(b".") == 2 and not any(c in s for c in b"xX*"):
-        s += b"-" + pick(rng, PRE)
+        s += b"-" + pre_label(rng)
     elif rng.random() < 0.03:
-        s += b"-" + pick(rng, PRE)          # prerelease on a partial version
+        s += b"-" + pre_label(rng)          # prerelease on a partial version
     if rng.random() < 0.05:
         s += b"+b1"
     if sysi == 2:
@@ -96,30 +130,17 @@ def semver_req(rng, sysi):
 def go_req(rng):
     s = core(rng, rng.choice([3, 3, 3, 3, 2, 1]))
     if rng.random() < 0.25:
-        s += b"-" + pick(rng, PRE)
+        s += b"-" + pre_label(rng)
     if rng.random() < 0.1:
         s += b"+meta"
     return (b"v" if rng.random() < 0.95 else b"") + s
-
-
-def recase(rng, label):
-    """NuGet compares labels without regard to case and deps.dev lower-cases them when it prints"""
-    r = rng.random()
-    if r < 0.4:
-        return label.upper()
-    if r < 0.7:
-        return label.title()
-    return bytes(ch ^ 0x20 if (65 <= ch <= 90 or 97 <= ch <= 122) and rng.random() < 0.5 else ch for ch in label)
 
 
 def nuget_version(rng):
     n = rng.choice([1, 2, 3, 3, 3, 4, 4])
     s = core(rng, n)
     if rng.random() < 0.3:
-        label = pick(rng, PRE)
-        if rng.random() < 0.4:
-            label = recase(rng, label)
-        s += b"-" + label
+        s += b"-" + pre_label(rng)
     return s
 
 
@@ -209,8 +230,29 @@ def mutate(rng, s):
     return bytes(s)
 
 
+def overlapping_alts(rng, sysi):
+    """an or-list (Default, NPM) of 3-5 intervals over five points, 40% of the bounds with a
+    prerelease tag: the alternatives overlap, nest and touch, which is where canon's merge loop
+    (skip a neighbour whose tags differ, merge a later one, i++) leaves sets that are not
+    canonical: overlapping or redundant spans"""
+    base = sorted(set(tuple(rng.choice([0, 1, 2, 3, 4, 5]) if j == 0 else rng.choice([0, 0, 1, 6]) for j in range(3)) for _ in range(8)))
+    while len(base) < 5:
+        base.append((base[-1][0] + 1, 0, 0))
+    pts = [b"%d.%d.%d" % t for t in base[:5]]
+    pts = [p + b"-" + pre_label(rng) if rng.random() < 0.4 else p for p in pts]
+    alts = []
+    for _ in range(rng.choice([3, 3, 4, 5])):
+        i = rng.randrange(4)
+        j = rng.randrange(i + 1, 5)
+        lo_open = rng.random() < 0.3 and b"-" in pts[i]
+        alts.append(_interval(rng, sysi, pts[i], lo_open, pts[j], rng.random() < 0.5))
+    return (sp(rng) + b"||" + sp(rng)).join(alts)
+
+
 def requirement(rng, sysi, noise=0.0):
-    if sysi in (0, 1, 4):
+    if sysi in (0, 4) and rng.random() < 0.07:
+        s = overlapping_alts(rng, sysi)
+    elif sysi in (0, 1, 4):
         s = collapsing(rng, sysi) if rng.random() < 0.08 else semver_req(rng, sysi)
     elif sysi == 2:
         s = go_req(rng)
@@ -255,7 +297,7 @@ def shared_endpoint_pair(rng, sysi):
     pts = [b"%d.%d.%d" % t for t in base[:4]]
     if rng.random() < 0.2:
         k = rng.randrange(4)
-        pts[k] = pts[k] + b"-" + pick(rng, [b"alpha", b"rc.1", b"0"])     # an open lower end needs a prerelease bound
+        pts[k] = pts[k] + b"-" + pick(rng, [b"alpha", b"rc.1", b"0", b"Beta", b"RC.1"])     # an open lower end needs a prerelease bound
     p, q, r, s_ = pts
     mode = rng.choice(["max", "max", "min", "touch", "nest"])
     fl = lambda: rng.random() < 0.5
@@ -376,6 +418,7 @@ def probes(rng, sysi, texts, n_random=4, cap=28):
             seen.add(v)
             out.append(v)
 
+    keep = set()          # case variants of the tags of the bounds: not cut either (at most 6)
     # the operands exactly as they are spelled in the requirement come first and are never cut
     lits = literals(texts)[:8]
     for t in lits:
@@ -402,6 +445,9 @@ def probes(rng, sysi, texts, n_random=4, cap=28):
             add(fmt(sysi, nums, pre))
             add(fmt(sysi, nums, pre + b".0"))
             add(fmt(sysi, nums, b"0"))
+            for q in case_variants(pre):
+                keep.add(fmt(sysi, nums, q))
+                add(fmt(sysi, nums, q))
         for i in range(3):
             up = list(nums)
             up[i] += 1
@@ -432,12 +478,14 @@ def probes(rng, sysi, texts, n_random=4, cap=28):
         elif sysi == 3:
             add(fmt(sysi, nums) + b"-alpha")
             add(fmt(sysi, nums) + b"-SNAPSHOT")
-    rest = out[len(lits):]
+    rest = [x for x in out[len(lits):] if x not in keep]
+    kept = [x for x in out[len(lits):] if x in keep]
     rng.shuffle(rest)
-    out = out[:len(lits)] + rest[:max(cap - n_random - len(lits), 4)]
+    rng.shuffle(kept)
+    out = out[:len(lits)] + kept[:6] + rest[:max(cap - n_random - len(lits) - min(len(kept), 6), 4)]
     for _ in range(n_random):
         nums = [num(rng) for _ in range(3)]
-        pre = pick(rng, PRE) if (rng.random() < 0.3 and sysi not in (3, 6)) else None
+        pre = pre_label(rng) if (rng.random() < 0.3 and sysi not in (3, 6)) else None
         v = fmt(sysi, nums, pre)
         if v not in seen:
             seen.add(v)
@@ -458,7 +506,7 @@ def span_probes(rng, sysi, spans, have=(), n_neighbours=8):
     (without the prerelease, smallest prerelease, prerelease + .0, last component +-1) a random
     n_neighbours are kept.  Returns texts not in `have`."""
     seen = set(have)
-    lits, neigh = [], []
+    lits, neigh, cased = [], [], []
 
     def add(dst, v):
         if v not in seen:
@@ -482,6 +530,8 @@ def span_probes(rng, sysi, spans, have=(), n_neighbours=8):
                     add(neigh, fmt(sysi, nums, None))
                     add(neigh, fmt(sysi, nums, pre + b".0"))
                     add(neigh, fmt(sysi, nums, b"0"))
+                    for q in case_variants(pre):
+                        add(cased, fmt(sysi, nums, q))
                 else:
                     add(neigh, fmt(sysi, nums, b"0"))
                     add(neigh, fmt(sysi, nums, b"rc.1"))
@@ -493,7 +543,8 @@ def span_probes(rng, sysi, spans, have=(), n_neighbours=8):
                 if len(nums) < 3:
                     add(neigh, fmt(sysi, (nums + [0, 0])[:3]))
     rng.shuffle(neigh)
-    return lits + neigh[:n_neighbours]
+    rng.shuffle(cased)
+    return lits + cased[:6] + neigh[:n_neighbours]
 
 
 # ----------------------------------------------------------------------------- set texts (operands with several spans for every system)
@@ -513,7 +564,7 @@ def set_text(rng, sysi):
         lo, hi = pts[2 * j], pts[2 * j + 1]
         if j > 0 and rng.random() < 0.2:
             lo = pts[2 * j - 1]                      # touches the span before
-        lo_t = fmt(sysi, lo, pick(rng, PRE) if rng.random() < 0.15 else None)
+        lo_t = fmt(sysi, lo, pre_label(rng) if rng.random() < 0.15 else None)
         if rng.random() < 0.2:
             spans.append(lo_t)
             continue
@@ -523,6 +574,52 @@ def set_text(rng, sysi):
             if sysi == 2:
                 hi_t = b"v" + hi_t
         else:
-            hi_t = fmt(sysi, hi, pick(rng, PRE) if rng.random() < 0.15 else None)
+            hi_t = fmt(sysi, hi, pre_label(rng) if rng.random() < 0.15 else None)
         spans.append(pick(rng, [b"[", b"[", b"("]) + lo_t + b":" + hi_t + pick(rng, [b")", b")", b"]"]))
     return b"{" + b",".join(spans) + b"}"
+
+
+# ----------------------------------------------------------------------------- operands that match nothing
+
+def unsatisfiable(rng, sysi):
+    """an operand text whose set is empty (or, where deps.dev keeps a degenerate span, matches
+    nothing): two different exact versions, a bound below zero, above everything, a reversed or
+    collapsed interval; for Go (no operators) and as a further form everywhere the set text
+    {<empty>}"""
+    if sysi == 2 or rng.random() < 0.2:
+        return b"{<empty>}"
+    sep = b", " if sysi == 1 else b" "
+    a = [rng.choice([0, 1, 2, 3]) for _ in range(3)]
+    b = list(a)
+    b[rng.randrange(3)] += rng.choice([1, 2])
+    ta, tb = fmt(sysi, a), fmt(sysi, b)
+    eq = b"=" if sysi == 1 else pick(rng, [b"", b"="])
+    forms = [
+        eq + ta + sep + eq + tb,                       # 1.0.0 2.0.0
+        b"<0",
+        b"<0.0.0",
+        b">=" + tb + sep + b"<" + ta,                  # reversed
+        b">" + ta + sep + b"<" + ta,                   # collapsed
+        b"<" + ta + sep + eq + tb,
+        eq + ta + sep + b">" + tb,
+    ]
+    if sysi != 1:
+        forms += [b">*", b"<*", b">x"]
+    return pick(rng, forms)
+
+
+def empty_operand(rng, sysi):
+    """an operand that is empty, spelled directly or as a computation on other operands
+    (`@I X @@ Y` = X intersected with Y, `@U X @@ Y` = X united with Y; read by the harness):
+    the intersection of two empties, of two disjoint intervals, the union of two empties"""
+    r = rng.random()
+    if r < 0.5:
+        return unsatisfiable(rng, sysi)
+    if r < 0.7:
+        return b"@I " + unsatisfiable(rng, sysi) + b" @@ " + unsatisfiable(rng, sysi)
+    if r < 0.85:
+        return b"@U " + unsatisfiable(rng, sysi) + b" @@ " + unsatisfiable(rng, sysi)
+    lo = [rng.choice([0, 1, 2]), rng.choice([0, 1, 2]), 0]
+    x = b"{[" + fmt(sysi, lo) + b":" + fmt(sysi, [lo[0], lo[1], 5]) + b"]}"
+    y = b"{[" + fmt(sysi, [lo[0] + 1, 0, 0]) + b":" + fmt(sysi, [lo[0] + 2, 0, 0]) + b")}"
+    return b"@I " + x + b" @@ " + y
